@@ -141,11 +141,37 @@ def run(res, replay=None):
     # its transitions become schedules that the harness forces on the implementation
     gen_dir = vlib.scratch_dir()
     try:
+        _fresh_example(res, gen_dir)
         _run_with_model_traces(res, pid, mode, quick, args, gen_dir)
     finally:
+        vlib.EXTRA_OVERLAYS.pop("runner", None)
         shutil.rmtree(gen_dir, ignore_errors=True)
     if not quick and pid == "C13":
         _race_stress(res)
+
+
+def _fresh_example(res, gen_dir):
+    """The whole-node scenarios run the GENERATED example node. The checked-in testdata/gen/go/example/example.dbc.go is
+    not regenerated by the repository's tests, so a change of the generator's node templates would not reach it: generate
+    the package afresh with the tree's own `cantool generate testdata/dbc <scratch>` (same command, same relative source
+    path as the checked-in file) and compile the harness against THAT file through the overlay."""
+    from checks import cantool_cli
+    exe, log = cantool_cli.build_cantool(gen_dir)
+    info = {"used": "checked-in file"}
+    if exe is not None:
+        out_dir = os.path.join(gen_dir, "example-gen")
+        rc, out = vlib.sh([exe, "generate", "testdata/dbc", out_dir], cwd=vlib.REPO, timeout=300)
+        fresh = os.path.join(out_dir, "example", "example.dbc.go")
+        if rc == 0 and os.path.exists(fresh):
+            checked_in = os.path.join(vlib.REPO, "testdata", "gen", "go", "example", "example.dbc.go")
+            same = os.path.exists(checked_in) and open(checked_in, "rb").read() == open(fresh, "rb").read()
+            vlib.EXTRA_OVERLAYS["runner"] = {"testdata/gen/go/example/example.dbc.go": fresh}
+            info = {"used": "freshly generated by the tree's `cantool generate testdata/dbc`", "equals_checked_in_file": same}
+        else:
+            info["generation_failed"] = out[-500:]
+    else:
+        info["cantool_build_failed"] = log[-500:]
+    res.cov["generated_example_node"] = info
 
 
 def _run_with_model_traces(res, pid, mode, quick, args, gen_dir):
